@@ -3,13 +3,13 @@ PROPERTY = 'C12'
 
 
 def plan(tier, seed):
-    nk, nb, nc, ns, nm = 21, 17, 11, 6, 12
+    nk, nb, nc, ns, nm = 21, 19, 11, 6, 12
     units = []
     q = tier == 'quick'
     for ki in range(nk):
         for bi in range(nb):
             for ci in range(nc):
-                if q and (ki + bi + ci + seed) % 9:
+                if q and (ki + bi + ci + seed) % 9 and not (bi >= 17 and (ki + ci) % 3 == 0):
                     continue
                 units.append(dict(hfile='math.py', fname='c12_region', args=(ki, bi, ci)))
         for si in range(ns):
